@@ -184,6 +184,39 @@ func checkC07(c *Ctx) {
 		reportFindings(c, p, "C07.sqrt", dec, hits, "sqrt-checked")
 	}
 
+	// ---- sign flags are canonical
+	c.Rule("C07.sign", "SIGN-CANONICAL: where a decoder negates the recovered coordinate because the flag asks for the 'largest' / negative root although the computed root is not the largest one, the coordinate is known to be non-zero (dominating IsZero test): 0 = -0 has a single encoding, so a set sign flag with a zero coordinate is an alias that re-encodes to different bytes", 40)
+	for _, fn := range decoders {
+		if !decName.MatchString(fn.Name()) {
+			continue
+		}
+		ctx := blockContextsN(fn, 0)
+		var negs []ssa.Instruction
+		for _, b := range fn.Blocks {
+			if !strings.Contains(ctx[b.Index], "not ") || !strings.Contains(ctx[b.Index], ".LexicographicallyLargest(") {
+				continue
+			}
+			neg := false
+			for _, f := range strings.Split(strings.Trim(ctx[b.Index], " @{}"), ";") {
+				if strings.HasPrefix(f, "not ") && strings.Contains(f, ".LexicographicallyLargest(") {
+					neg = true
+				}
+			}
+			if !neg {
+				continue
+			}
+			for _, in := range b.Instrs {
+				if call, ok := in.(*ssa.Call); ok && calleeOf(&call.Call).Name == "Neg" && len(call.Call.Args) == 2 && (call.Call.Args[0] == call.Call.Args[1] || descValue(call.Call.Args[0], 0) == descValue(call.Call.Args[1], 0)) {
+					negs = append(negs, in)
+				}
+			}
+		}
+		if len(negs) == 0 {
+			continue
+		}
+		RequireFactsAtInstr(c, p, "C07.sign", fn, negs, "negated-to-largest", []Req{{"coordinate-non-zero", `^not \w+\.IsZero\(`}})
+	}
+
 	// ---- codec error discipline and raw reads
 	codec := codecFuncs(p)
 	{
